@@ -8,69 +8,89 @@ TB = ("CPython 3.12 semantics; the check's own reference model (plain ints / std
 CHECKS = {
  "C03": dict(cat="model_checking", tech="lock-step explicit-state BFS (closure to depth 2-3) of Duration/Instant/Offset operations against a Python-int reference model",
    text="A value alphabet derived from the code's own constants (unit sizes, 2^24/2^30/2^53/2^63 day and tick boundaries, range ends and one step beyond) is closed under every factory, "
-        "operator and accessor to depth 2 (quick) / 3 (thorough); every result is compared with exact integer arithmetic, must be in normal form, and out-of-range model results must raise.", ref="4/C03"),
+        "operator and accessor to depth 2 (quick) / 3 (thorough); every result is compared with exact integer arithmetic, must be in normal form, and out-of-range model results must raise."
+        " Scalars and amounts include the numeric-tower boundaries 2^31..2^1024, 10^400; static aliases are also called in keyword form with the documented parameter names.", ref="4/C03"),
  "C04": dict(cat="model_checking", tech="exhaustive walk of every zone's interval chain (a zone as a transition system) with per-interval and cross-query invariants",
    text="Every zone id is walked from the start of time: containment, abutment, maximality, wall = standard + savings, min/max bounds; every walked interval is re-queried at start, start+1ns, "
         "midpoint, end-1ns through the cached and the uncached zone. quick: precalculated part completely, recurring tail for a 400-year cycle plus years 9997-9999 and every 32-day cache period with "
-        "two transitions; thorough: every zone to the end of time (about 1.84 M intervals), exhaustive.", ref="4/C04"),
+        "two transitions; thorough: every zone to the end of time (about 1.84 M intervals), exhaustive."
+        " Cache-order histories on fresh cached zones for every transition on a 32-day period edge (aliased period first, then the instants around the transition, both orders).", ref="4/C04"),
  "C05": dict(cat="model_checking", tech="exhaustive sweep over every transition x a local-time alphabet, oracle = brute force over the walked interval list",
    text="For every transition of every zone the local values around both sides (+-1 h, +-1 s, +-1 ns, gap/overlap middle, local midnights of neighbouring days) are mapped; count, instants, "
-        "gap-adjacent intervals, strict/lenient resolvers, at_start_of_day and round trip instant->local->instants are compared with a brute-force evaluation over the interval list, in ISO and non-ISO calendars.", ref="4/C05"),
+        "gap-adjacent intervals, strict/lenient resolvers, at_start_of_day and round trip instant->local->instants are compared with a brute-force evaluation over the interval list, in ISO and non-ISO calendars."
+        " 810 synthetic user zones (offset grid x local time of day, one and two transitions) go through the same law set.", ref="4/C05"),
  "C06": dict(cat="model_checking", tech="exhaustive lock-step comparison of provider behaviour with an independent .nzd decoder and yearly-rule evaluator",
    text="models/nzdref.py decodes the bundled file bytes independently and models/tzrules.py evaluates the stored yearly rules with plain calendar arithmetic; ids, aliases, version, every precalculated "
-        "period and every rule-generated tail transition (range as C04) must agree, for both real files; fixed-offset id grammar and near misses enumerated.", ref="4/C06"),
+        "period and every rule-generated tail transition (range as C04) must agree, for both real files; fixed-offset id grammar and near misses enumerated."
+        " Every reference interval is also point-queried through the provider's cached zone (incl. a descending pass over busy cache periods); the fixed-id grid is repeated under 7 ambient cultures.", ref="4/C06"),
  "C07": dict(cat="model_checking", tech="bounded-exhaustive enumeration of pattern texts x culture classes x value alphabets with fixpoint and field-projection oracles",
    text="core/grammar.py enumerates every pattern of <= 2 (quick) / 3 (thorough) fields with all width variants and delimiter styles per type plus all standard patterns; values are built from the template so they "
-        "are representable by construction; oracles: determinism, one-step fixpoint, exact recovery, built-in round-trip patterns on the full value alphabet, shared-pattern-object histories; all cultures for standard patterns.", ref="4/C07"),
+        "are representable by construction; oracles: determinism, one-step fixpoint, exact recovery, built-in round-trip patterns on the full value alphabet, shared-pattern-object histories; all cultures for standard patterns."
+        " Template calendars incl. Gregorian and built-ins under every calendar, extreme template values, synthetic cultures, fraction-digit sweeps, hash-colliding values formatted consecutively through one pattern object.", ref="4/C07"),
  "C08": dict(cat="model_checking", tech="bounded-exhaustive enumeration of pattern strings and single-edit mutations of input texts; oracle = result/exception type",
    text="All strings up to length 3 over a 30-character alphabet and structural strings up to length 5-6 are offered to every pattern factory (only InvalidPatternError may escape); for every created pattern, "
-        "formatted values, every single-edit mutation, numeric-run replacements, empty and NUL texts are parsed: no exception may escape and success implies a valid value.", ref="4/C08"),
+        "formatted values, every single-edit mutation, numeric-run replacements, empty and NUL texts are parsed: no exception may escape and success implies a valid value."
+        " Plus extreme non-default templates, ill-formed composites (embedded + individual fields) that must be rejected or parse safely, format-string metacharacters as literals, synthetic cultures.", ref="4/C08"),
  "C09": dict(cat="model_checking", tech="lock-step exploration of date arithmetic and Period.between over all pairs / unit subsets of a boundary alphabet against a day-line and month-index model",
    text="Per calendar a date alphabet (range ends, leap/non-leap, cycle boundaries, month ends) x an amount alphabet (incl. the 300-day fast-path threshold and range-leaving amounts) is compared with models/periodref.py; "
-        "Period.between for all pairs and all unit subsets (LocalDate 15, LocalDateTime up to 1023, LocalTime 63, YearMonth 3) is checked against the stated laws; normalize/to_duration/builder identities.", ref="4/C09"),
+        "Period.between for all pairs and all unit subsets (LocalDate 15, LocalDateTime up to 1023, LocalTime 63, YearMonth 3) is checked against the stated laws; normalize/to_duration/builder identities."
+        " Plus the apply-period part (x + p, x - p and the static aliases for LocalDate/LocalDateTime/LocalTime vs a field-by-field model) and cross-calendar histories in one process.", ref="4/C09"),
  "C10": dict(cat="model_checking", tech="lock-step BFS of time-of-day / local date-time arithmetic against an integer (day, nanosecond-of-day) model",
    text="Times of day x signed amounts per unit (unit boundaries, +-1 around whole days, beyond 2^64, 1e15-1e30 days) x calendars; LocalTime wraps modulo 24 h, accessors decompose exactly, LocalDateTime.plus_<unit> and "
-        "plus/minus(Period) equal the integer model with carry, out-of-range raises.", ref="4/C10"),
+        "plus/minus(Period) equal the integer model with carry, out-of-range raises."
+        " Amounts include (k*2^32+j) and (k*2^64+j) whole days and values beyond the int->str digit limit on every route.", ref="4/C10"),
  "C11": dict(cat="model_checking", tech="lock-step BFS (depth 2) of OffsetDateTime/OffsetDate/OffsetTime/ZonedDateTime operations against an (instant, offset, calendar, zone) integer model",
    text="13-19 base instants x 9-11 offsets x all 19 calendars, 105 operations, depth 2, canonical-state de-duplication; zoned values on 7 zones at real transitions; complete sweep of all 129,601 offsets through "
-        "OffsetTime packing and with_offset day carries; every accessor, conversion route and difference compared with the model.", ref="4/C11"),
+        "OffsetTime packing and with_offset day carries; every accessor, conversion route and difference compared with the model."
+        " Plus ZonedClock histories (one clock moved forwards/backwards across transitions) and cross-calendar partners with equal field values for a - b.", ref="4/C11"),
  "C12": dict(cat="model_checking", tech="exhaustive pairs/triples over per-type value alphabets for the equality/hash/order algebra + all call sequences of length <= 2 for immutability",
    text="17 public value types, alphabets of 14-20 values: all ordered pairs and all triples are checked against a (component key, timeline order, calendar group) model, foreign-type comparisons refused; "
-        "every sequence of <= 2 public calls (introspected surface, typed argument pools) must leave a deep snapshot of every operand unchanged.", ref="4/C12"),
+        "every sequence of <= 2 public calls (introspected surface, typed argument pools) must leave a deep snapshot of every operand unchanged."
+        " Fixed zones keyed by (offset, id, name) from the tz database, augmented-assignment and reflected operator routes with aliasing snapshots, iterator-protocol laws.", ref="4/C12"),
  "C13": dict(cat="model_checking", tech="explicit-state exploration of all query histories up to depth 3-4 on colliding cache keys + preemption-bounded schedule exploration (line and opcode granularity) of real threads",
    text="Histories: year-start caches of all 19 calendars (aliasing years), the 512-slot zone-interval cache (periods 512 apart, multi-transition periods), _Cache at size 2/3, the format-info cache cycled through all cultures, "
-        "provider lookups and calendar routes - oracle is the same query asked first on a fresh cache. Schedules: 23 two-thread harnesses on shared caches and lazy singletons, every schedule within 1-2 preemptions.", ref="4/C13"),
+        "provider lookups and calendar routes - oracle is the same query asked first on a fresh cache. Schedules: 23 two-thread harnesses on shared caches and lazy singletons, every schedule within 1-2 preemptions."
+        " Histories also interpose public rejected operations (years 2^17 apart), use an aliasing custom provider source, fixed-zone tables and sibling pattern texts through the cached culture; schedules include warm-cache variants, generic pairs of pure queries on shared objects (whole-library tracing in thorough), post-race sequential probing, and first use in fresh interpreters.", ref="4/C13"),
  "C14": dict(cat="model_checking", tech="exhaustive sweep of each codec primitive's domain + composite values + byte-identical re-encoding of all rule-based zones",
    text="Counts, signed counts, milliseconds (boundary classes in quick, all 172.8 M values in thorough), all 129,601 offsets, transition/previous pairs over every encoding class limit, strings, dictionaries, "
-        "yearly rules (full product), recurrences, maps and zones: read(write(v)) == v, exact byte consumption, documented minimal encoding length; all 724 zones of the two real files re-encode to their original bytes.", ref="4/C14"),
+        "yearly rules (full product), recurrences, maps and zones: read(write(v)) == v, exact byte consumption, documented minimal encoding length; all 724 zones of the two real files re-encode to their original bytes."
+        " Reader side also over short-read streams and all reader call histories of length <= 3-4 against a cursor model.", ref="4/C14"),
  "C15": dict(cat="model_checking", tech="exhaustive sweep against the standard library (all dates, all seconds of a day, boundary products for datetimes/timedeltas/offsets)",
    text="All 3,652,059 dates both ways; all 86,400 seconds x microsecond alphabet; boundary dates x boundary times x all whole-minute offsets in +-18 h for naive/aware datetimes; timedelta boundaries; "
-        "pyoda->stdlib for boundary values in every calendar with truncation toward the start of time and raising outside the stdlib range.", ref="4/C15"),
+        "pyoda->stdlib for boundary values in every calendar with truncation toward the start of time and raising outside the stdlib range."
+        " A slice is repeated under ambient TZ settings (JST-9, EST5EDT) in worker processes; sub-second tz offsets included.", ref="4/C15"),
  "C16": dict(cat="model_checking", tech="exhaustive sweep of week-year rules x calendars x year-boundary windows against round-trip laws, isocalendar and brute-force weekday scans",
    text="71 rules x all years: dates within +-10 days of every year boundary round-trip through (week-year, week, weekday), week numbers within range and stepping on the rule's first day; ISO rule vs datetime.isocalendar "
-        "for every date of years 1-9999; next/previous and n-th-weekday constructors vs brute-force scans. quick: ISO calendar all rules, other calendars 3 rules; thorough: all.", ref="4/C16"),
+        "for every date of years 1-9999; next/previous and n-th-weekday constructors vs brute-force scans. quick: ISO calendar all rules, other calendars 3 rules; thorough: all."
+        " A long-history pass keeps one rule object per rule over 2600 distinct week-years.", ref="4/C16"),
  "C17": dict(cat="model_checking", tech="exhaustive sweep of ISO pattern output/input against datetime.isoformat/fromisoformat and a shape grammar",
-   text="All 3.65 M dates, all 86,400 seconds x fraction alphabet, boundary date-times and instants, all whole-minute offsets: stdlib reads pyoda's text to the same value and pyoda parses stdlib's text; padding/fraction/Z shape rules.", ref="4/C17"),
+   text="All 3.65 M dates, all 86,400 seconds x fraction alphabet, boundary date-times and instants, all whole-minute offsets: stdlib reads pyoda's text to the same value and pyoda parses stdlib's text; padding/fraction/Z shape rules."
+        " All ISO built-ins are found by introspection with measured capability; all 1,000,000 microsecond fractions and dense nanosecond sets; years <= 0 for every date-bearing pattern; ambient culture x every to-string route; hash-colliding consecutive values.", ref="4/C17"),
  "C18": dict(cat="model_checking", tech="exhaustive pairs of intervals over small universes against Python set semantics",
    text="Per calendar four 7-day universes (mid-range, year boundary, range ends): all 28 intervals and all 784 ordered pairs - length, iteration, membership, containment, intersection, union vs set operations; "
-        "Interval over an extended-instant alphabet incl. unbounded ends; constructor rejections.", ref="4/C18"),
+        "Interval over an extended-instant alphabet incl. unbounded ends; constructor rejections."
+        " Plus cross-calendar histories in one process and clone routes (copy, deepcopy, pickle 2-5) with the full observation set.", ref="4/C18"),
  "C20": dict(cat="fault_enumeration", tech="exhaustive enumeration of fault operators (truncate / substitute / insert / delete, k<=4 tuples in framing windows) over the two real database files with a watchdog",
    text="Every faulted stream is loaded with the real loader under a time and memory watchdog, ids listed and affected zones fetched; any outcome other than success or InvalidPyodaDataError (or the documented "
-        "source error) is a violation keyed by call, exception type and innermost function. quick: position sets covering header, framing, every field boundary, small fields completely; thorough: every truncation point and every byte.", ref="4/C20"),
+        "source error) is a violation keyed by call, exception type and innermost function. quick: position sets covering header, framing, every field boundary, small fields completely; thorough: every truncation point and every byte."
+        " Role-aware substitute values for rule bytes, value-level id-map mutations (re-pointing, 2- and 3-cycles) and token substitution on id strings of the pool.", ref="4/C20"),
 
  "C01": dict(cat="model_checking", tech="exhaustive walk of the calendar transition system (state = calendar x day number) with counted structure invariants",
    text="The calendar is a chain-shaped transition system; every state walked is converted day->date->day, through the public constructor, through ISO and back "
         "(independent ISO date from datetime/civil-from-days), ordered against its predecessor, and month/year structure is counted along the walk. quick: month tables of "
         "every year of all 19 calendars (complete), complete walk of Badi and Um Al Qura, boundary blocks and one seed-positioned 30000-day block per calendar, all "
-        "rejection cases per year; thorough: the complete chain of every calendar (about 70.8 M states), exhaustive.", ref="4/C01"),
+        "rejection cases per year; thorough: the complete chain of every calendar (about 70.8 M states), exhaustive."
+        " Also: every month end through the era/year-of-era constructor route, the calendar-less Instant->UTC->date route for ISO, and the year tables recomputed in three visiting orders (descending, by cache slot, ascending) inside one process.", ref="4/C01"),
  "C02": dict(cat="model_checking", tech="exhaustive lock-step sweep against an independent implementation of the published calendar algorithms and datetime.date",
    text="Every year and month of the 16 arithmetic calendar ids is compared with models/calref.py (independent fixed-day formulas: year start, leap flag, length, month starts/ends, "
-        "weekday); ISO is compared with datetime.date over all 3,652,059 ordinals in both directions; day-level lock-step walk on boundary blocks + one seed block (quick) or every day (thorough).", ref="4/C02"),
+        "weekday); ISO is compared with datetime.date over all 3,652,059 ordinals in both directions; day-level lock-step walk on boundary blocks + one seed block (quick) or every day (thorough)."
+        " The era construction route is compared with reference era arithmetic for every month end.", ref="4/C02"),
  "C19": dict(cat="model_checking", tech="explicit-state exploration of all operation sequences vs. reference model + preemption-bounded schedule exploration of real threads",
    text="Every FakeClock operation sequence up to depth 3 (quick) / 4 (thorough) over a 26-30 symbol alphabet is replayed on the real object "
         "and compared step by step with a now/auto-advance integer model; every schedule of 2-3 real threads x 1-2 operations within 2 preemptions "
         "(opcode granularity, cooperative ModelLock, deadlock detection) must terminate, give a sequentially explainable outcome and no duplicate reads; "
-        "ZonedClock getters x zones x calendars and SystemClock behind a time_ns seam.", ref="4/C19"),
+        "ZonedClock getters x zones x calendars and SystemClock behind a time_ns seam."
+        " ZonedClock histories on one object (all <= 2-3 step movement sequences across real transitions), sequences started from a non-zero auto-advance, operations after a raising operation must still complete (lock-timeout guard), three-thread read|reset|read.", ref="4/C19"),
 }
 READY = set("C01 C02 C03 C04 C05 C06 C07 C08 C09 C10 C11 C12 C13 C14 C15 C16 C17 C18 C19 C20".split())
 NOT_YET = "check not built yet in this session (planned, see DESIGN.md section 4)"
